@@ -1,6 +1,57 @@
-(* RoundTripProofs.v — property C01: the FILE ROUND-TRIP THEOREM, assembled from SerialProofs (write/read refine
-   `norm_entries`), DictProofs (from_dict (to_dict n) for constructed nodes), SimProofs (constructors only look at numeric
-   views) and MirrorClosedProofs. *)
+(* RoundTripProofs.v — property C01: THE FILE ROUND-TRIP THEOREM.
+
+     (* THE THEOREM (c01_full_statement) *)
+Theorem file_round_trip : forall g t, built g -> rt_domain g -> write g = Ok t ->
+       exists g', read t = Ok g' /\ equiv g' g.
+
+   For every node g produced by the constructors (`built`, DictProofs: a leaf returned by `construct`, or `mk_graph` of
+   built children with distinct names, to any depth) that `write` accepts, `read (write g)` SUCCEEDS and returns a node
+   equivalent to g.  Assembled from
+     SerialProofs  read (write g) = from_dict d' with norm_entries (to_dict g) = Ok d'   (read_write_refines)
+     DictProofs    from_dict (to_dict g) = Ok (canon g)                                  (construct_round)
+     SimProofs     constructors only look at numeric views: post_init_sim, norm_val_vsim_deep and the
+                   round-trip direction of its side conditions (norm_val_no0d / _not_pyint / _keeps_shape / _keeps_operand)
+     MirrorClosedProofs  construct_leaf, built_mirrors_deep (via DictProofs).
+
+   `equiv g' g` (= rt_rel g g', section 9), g the original, g' the node read back:
+     leaf    same kind; same field names in the same order (equiv_field_names); every field value other than "metadata"
+             related by SimProofs.vsim — ALSO the three paired hyper-parameters of a Conv2d, for which post_init_sim only
+             gives c2sim: a stored one is never a Python int, on either side (conv2d_stored, norm_val_not_pyint) —, i.e.
+             compared as numbers and arrays: Python ints come back as numpy integer scalars and integer tuples/lists as
+             int64 arrays of equal value, 0-d arrays as the numpy scalar of the same dtype and content, str as str;
+             ARRAY-VALUED FIELDS ARE IDENTICAL (arrays_same: same dtype, shape and content token — vsim alone would allow
+             an integer array to change dtype);
+             "metadata" read back is EXACTLY the file normal form of the original one: norm_val m = Ok m' (SerialProofs:
+             empty nested "metadata" entries dropped, values as above, arrays at any depth identical: metadata_arrays);
+             this needs no condition on the metadata at all, and implies vsim m m' when m is in the domain rt_ok of
+             SimProofs (metadata_vsim);
+             input/output types EQUAL, except the dictionary-born types of Input / Output / Flatten (SimProofs.loose_in,
+             loose_out), equal up to the container of the numbers (tuple TSeq in the original, array TArr read back).
+     graph   the same children: same names in the same order (equiv_child_names), recursively equivalent; the same edge
+             list (=, order and duplicates included); metadata as above; graph-level types — recomputed from the children
+             by mk_graph on both sides — entry by entry equal up to the container (gty_rel).
+
+   `rt_domain g` (sections 8, 10, 11) = every leaf of g, at any depth, satisfies
+     D1  every stored field other than "metadata" is rt_ok (SimProofs): no Python bool, no Python float, no bytes, and — if
+         it is a dictionary — no empty "metadata" entry nested in it.   NEEDED: bool_needed (reading the file FAILS),
+         bytes_needed, nested_empty_metadata_needed; floats: float_excluded (a limit of vsim, which keeps floats apart
+         because the model does not record the content of the numpy float64 scalar read back).
+     D2  padding / stride / dilation of a Conv1d / Conv2d are not 0-d ndarrays (hp0_names).   Needed by the lemma
+         SimProofs.post_init_sim (its side condition S2), NOT by the round trip itself: hp0_not_necessary.  (A constructor
+         that READS such a hyper-parameter rejects a 0-d array, so D2 only bites when it is left unread: padding "same",
+         empty input shape.  For Flatten.start_dim / end_dim and Conv1d.input_shape the condition is DERIVED:
+         flatten_dims_read, conv1d_ish_read.)
+     D3  single_typed (DictProofs): the type dictionary of an Input / Output / Flatten node has the one entry that
+         `to_dict` serialises.   NEEDED: single_needed (= DictProofs.extra_keys_lost).  Without D3 the theorem holds
+         against `canon g`: file_round_trip_canon.
+   NOTHING is assumed about metadata (floats, bools, nested empty metadata are all fine there), about names (write
+   checks them), about None-valued fields (write rejects them) or about the graph-level types.  Distinct child names
+   are part of `built`.  The remaining side conditions of post_init_sim are DERIVED from the success of the original
+   constructor (post_init_shapes, cuba_operand, conv2d_stored) and from norm_val (brel_keeps).
+
+   The example of section 12 (Input -> Conv2d -> Flatten -> CubaLIF -> Output, metadata tree with a float, a bool and an
+   empty nested "metadata") is built, in the domain, written, read, and `equiv` is checked twice: by the theorem and
+   directly against the definition. *)
 From NIR Require Import Model.Graph Model.Serial Proofs.MirrorClosedProofs Proofs.SerialProofs Proofs.SimProofs
   Proofs.DictProofs.
 From NIR Require Proofs.NodesProofs.
@@ -502,16 +553,125 @@ Proof.
        exists y; split; [reflexivity|intros _; exact Hy].
 Qed.
 
+(* ---- arrays are stored as they are passed ----------------------------------------------------- *)
+Lemma pair_if_int_arr dt sh tok i : pair_if_int (VArr dt sh tok i) = VArr dt sh tok i.
+Proof. reflexivity. Qed.
+
+Lemma post_init_arrays k fs0 k' f ti to g dt sh tok i :
+  post_init k fs0 = Ok (Leaf k' f ti to) ->
+  g <> "input_type" -> g <> "output_type" -> (k = KCubaLIF -> g <> "w_in") ->
+  assoc g fs0 = Some (VArr dt sh tok i) -> assoc g f = Some (VArr dt sh tok i).
+Proof.
+  intros H G1 G2 G3 Ha.
+  destruct k; unfold post_init, elementwise, matvec in H; ok_walk H;
+    repeat match goal with E : _ = Ok (Leaf _ _ _ _) |- _ => progress ok_walk E end;
+    try (rewrite drop_types_assoc by assumption; exact Ha).
+  (* CubaLIF *)
+  all: try (rewrite assoc_set_other' by (apply G3; reflexivity); rewrite drop_types_assoc by assumption; exact Ha).
+  (* Conv2d *)
+  all: rewrite drop_types_assoc by assumption; rewrite !assoc_assoc_set;
+    repeat match goal with |- context [String.eqb ?x ?s] =>
+      let E := fresh "Eg" in destruct (String.eqb x s) eqn:E; [apply String.eqb_eq in E; subst x|] end;
+    try exact Ha;
+    match goal with E : fld ?s _ = Ok ?v |- Some (pair_if_int ?v) = _ =>
+      apply fld_assoc in E; rewrite Ha in E; inversion E; reflexivity end.
+Qed.
+
+Lemma cuba_w_in fs0 k' f ti to :
+  post_init KCubaLIF fs0 = Ok (Leaf k' f ti to) -> exists sh, assoc "w_in" f = Some (VArr "?" sh (-1) None).
+Proof.
+  intros H. unfold post_init in H. ok_walk H. eexists. rewrite assoc_assoc_set. cbn. reflexivity.
+Qed.
+
+Lemma kind_cuba_dec k : {k = KCubaLIF} + {k <> KCubaLIF}.
+Proof. destruct k; first [left; reflexivity|right; discriminate]. Qed.
+
+(* array-valued stored fields are read back IDENTICAL: same dtype, same shape, same content token *)
+Definition arrays_same (fs fs' : list (string * pval)) : Prop :=
+  forall f dt sh tok i, assoc f fs = Some (VArr dt sh tok i) -> sh <> [] -> assoc f fs' = Some (VArr dt sh tok i).
+
+Lemma brel_array f dt sh tok i b : sh <> [] -> brel f (VArr dt sh tok i) b -> b = VArr dt sh tok i.
+Proof.
+  intros Hsh H. unfold brel in H. rewrite norm_val_array in H by exact Hsh.
+  destruct (String.eqb f "metadata"); [inversion H; reflexivity|].
+  destruct H as [[H _]|H]; [inversion H; reflexivity|symmetry; exact H].
+Qed.
+
 (* ================================================================================================ *)
 (* (8) THE LEAF THEOREM                                                                             *)
 (* ================================================================================================ *)
-(* field relation of the result: metadata by the round-trip specification, the rest as in SimProofs.node_sim *)
-Definition erel (k : kind) (f : string) (a b : pval) : Prop :=
-  if String.eqb f "metadata" then norm_val a = Ok b else frel k f a b.
+(* field relation of the result (a: original, b: read back): the metadata tree by the specification of the file round
+   trip itself (norm_val: exact, no side condition), every other field by vsim *)
+Definition erel (f : string) (a b : pval) : Prop :=
+  if String.eqb f "metadata" then norm_val a = Ok b else vsim a b.
 
+(* the hyper-parameters for which "not a 0-d ndarray" has to be ASSUMED (SimProofs S2): those a constructor may leave
+   unread (with padding = "same", or an empty input shape) *)
+Definition hp0_names (k : kind) : list string :=
+  match k with KConv1d | KConv2d => ["padding"; "stride"; "dilation"] | _ => [] end.
+
+Lemma no0d_split k f : In f (no0d_names k) ->
+  In f (hp0_names k) \/ (k = KFlatten /\ (f = "start_dim" \/ f = "end_dim")) \/ (k = KConv1d /\ f = "input_shape") \/
+  f = "input_type" \/ f = "output_type".
+Proof.
+  destruct k; cbn [no0d_names hp0_names In]; intros H; timeout 20 intuition (subst; auto 10).
+Qed.
+
+(* a Flatten whose input type is defined read both dimensions as integers *)
+Lemma flatten_dims_read fs n sv f v :
+  post_init KFlatten fs = Ok n -> assoc "input_type" fs = Some (VDict [("input", sv)]) -> sv <> VNone ->
+  f = "start_dim" \/ f = "end_dim" -> assoc f fs = Some v -> is0d v = false.
+Proof.
+  intros H Hit Hsv Hf Hv. unfold post_init in H. unfold fld at 1 in H. rewrite Hit in H. cbn [bind parse_shape map fst snd assoc String.eqb Ascii.eqb Bool.eqb andb] in H.
+  destruct (tyv_of_pval sv) eqn:Et; [destruct sv; try discriminate Et; try (exfalso; apply Hsv; reflexivity)| | |].
+  all: try (cbn [tyv_of_pval] in Et; repeat match type of Et with context [match ?x with _ => _ end] => destruct x end; discriminate Et).
+  all: cbn [tyv_nums] in H; try discriminate H; ok_walk H.
+  all: destruct Hf as [-> | ->];
+       match goal with E : fld ?s _ = Ok ?a, E' : int_view ?a = Some _ |- _ =>
+         apply fld_assoc in E; rewrite Hv in E; inversion E; subst; exact (int_view_no0d _ _ E') end.
+Qed.
+
+Lemma conv1d_ish_read fs n v :
+  post_init KConv1d fs = Ok n -> assoc "input_shape" fs = Some v -> v <> VNone -> is0d v = false.
+Proof.
+  intros H Hv Hn. unfold post_init in H. ok_walk H.
+  all: match goal with E : fld "input_shape" _ = Ok _ |- _ => apply fld_assoc in E; rewrite Hv in E; inversion E; subst end.
+  all: try (exfalso; apply Hn; reflexivity).
+  all: match goal with E' : int_view _ = Some _ |- _ => exact (int_view_no0d _ _ E') end.
+Qed.
+
+(* the three paired hyper-parameters of a Conv2d, as stored *)
+Lemma conv2d_fields fs0 k' f ti to g :
+  post_init KConv2d fs0 = Ok (Leaf k' f ti to) -> In g ["padding"; "stride"; "dilation"] ->
+  assoc g f = option_map pair_if_int (assoc g fs0).
+Proof.
+  intros H Hin. unfold post_init in H. ok_walk H.
+  all: repeat match goal with E : fld _ _ = Ok _ |- _ => apply fld_assoc in E end.
+  all: destruct Hin as [<-|[<-|[<-|[]]]]; rewrite drop_types_assoc by discriminate; rewrite !assoc_assoc_set;
+       cbn [String.eqb Ascii.eqb Bool.eqb andb];
+       match goal with E : assoc ?s _ = Some ?v |- Some (pair_if_int ?v) = _ => rewrite E; reflexivity end.
+Qed.
+
+(* change the relation of a field list through lookups (distinct keys) *)
+Lemma fields_rel_relookup (R R' : string -> pval -> pval -> Prop) fs fs' :
+  fields_rel R fs fs' -> NoDup (map fst fs) ->
+  (forall f a b, assoc f fs = Some a -> assoc f fs' = Some b -> R f a b -> R' f a b) ->
+  fields_rel R' fs fs'.
+Proof.
+  intros H. induction H as [|[k a] [k' b] r r' [Hk Hv] Hr IH]; intros Hnd HR; [constructor|].
+  cbn [fst snd] in Hk, Hv. subst k'. cbn [map fst] in Hnd. inversion Hnd as [|? ? Hnot Hnd']; subst. constructor.
+  - split; [reflexivity|]. cbn [fst snd]. apply HR; [cbn [assoc]; rewrite String.eqb_refl; reflexivity..|exact Hv].
+  - apply IH; [exact Hnd'|]. intros f x y Hx Hy. apply HR; cbn [assoc].
+    + destruct (String.eqb f k) eqn:E; [|exact Hx]. apply String.eqb_eq in E. subst f.
+      exfalso. apply Hnot. exact (assoc_in_keys _ _ _ Hx).
+    + destruct (String.eqb f k) eqn:E; [|exact Hy]. apply String.eqb_eq in E. subst f.
+      exfalso. apply Hnot. exact (assoc_in_keys _ _ _ Hx).
+Qed.
+
+(* D1 and D2 of the header, for one leaf *)
 Definition leaf_domain (k : kind) (fs : list (string * pval)) : Prop :=
   (forall f v, In (f, v) fs -> f <> "metadata" -> rt_ok v) /\
-  (forall f v, In f (no0d_names k) -> assoc f fs = Some v -> is0d v = false).
+  (forall f v, In f (hp0_names k) -> assoc f fs = Some v -> is0d v = false).
 
 Lemma no0d_names_passed_b :
   forallb (fun k => forallb (fun f => mem_str f (leaf_keys k ++ map fst (xargs k VNone))) (no0d_names k)) all_kinds = true.
@@ -559,8 +719,9 @@ Lemma leaf_round_trip k args fs ti to d' fuel :
   k <> KGraph -> construct k args = Ok (Leaf k fs ti to) -> leaf_domain k fs ->
   norm_entries (to_dict (Leaf k fs ti to)) = Ok d' ->
   exists fs' ti' to', dict2node (S fuel) d' = Ok (Leaf k fs' ti' to') /\
-     fields_rel (erel k) fs fs' /\
-     ty_rel (loose_in k) (canon_tin k ti) ti' /\ ty_rel (loose_out k) (canon_tout k to) to'.
+     fields_rel erel fs fs' /\
+     ty_rel (loose_in k) (canon_tin k ti) ti' /\ ty_rel (loose_out k) (canon_tout k to) to' /\
+     arrays_same fs fs'.
 Proof.
   intros Hk Hc (Hok & H0d) Hn.
   destruct (constructed_keys _ _ _ _ _ _ Hc) as (Hnd & Hmeta & Htag).
@@ -632,7 +793,19 @@ Proof.
       destruct (assoc f (fs ++ xargs k sv)) as [v0|] eqn:EA.
       + rewrite (bind_args_assoc _ _ _ _ _ Hb EA) in Ev. inversion Ev; subst v0.
         destruct (assoc f fs) as [v1|] eqn:Ef.
-        * rewrite (assoc_app_some _ _ _ _ Ef) in EA. inversion EA; subst v1. exact (H0d f v Hin Ef).
+        * rewrite (assoc_app_some _ _ _ _ Ef) in EA. inversion EA; subst v1.
+          pose proof (bind_args_assoc _ _ _ _ _ Hb (assoc_app_some _ _ _ _ Ef)) as Hbf.
+          destruct (no0d_split k f Hin) as [Hh|[(Ek & Hf)|[(Ek & Ef')|[Ef'|Ef']]]].
+          -- exact (H0d f v Hh Ef).
+          -- subst k. apply (flatten_dims_read bfs _ sv f v Hround); [|intros E|exact Hf|exact Hbf].
+             ++ apply (bind_args_assoc _ _ _ _ _ Hb). destruct Htag as (_ & _ & T & _).
+                rewrite (assoc_app_none _ _ _ T). reflexivity.
+             ++ specialize (Hsv eq_refl). rewrite E in Hsv. discriminate Hsv.
+          -- subst k f. apply (conv1d_ish_read bfs _ v Hround Hbf). intros ->.
+             pose proof (norm_entries_assoc _ _ Hnd Hfsf "input_shape") as Ha. rewrite Ef in Ha.
+             destruct Ha as [(E & _)|(v' & Hv & _)]; [discriminate E|discriminate Hv].
+          -- subst f. destruct Htag as (_ & _ & T & _). congruence.
+          -- subst f. destruct Htag as (_ & _ & _ & T). congruence.
         * rewrite (assoc_app_none _ _ _ Ef) in EA.
           destruct (xargs_assoc k sv f) as [Hx|(_ & _ & i & _ & _ & _ & Hx)]; rewrite Hx in EA; [discriminate EA|].
           inversion EA. reflexivity.
@@ -644,14 +817,49 @@ Proof.
   rewrite Hround in Hpi. destruct (post_init k bfs2) as [n2|] eqn:E2; [|contradiction].
   destruct n2 as [k2 f2 ti2 to2|]; [|contradiction]. cbn [res_sim res_rel node_sim] in Hpi.
   destruct Hpi as (<- & Hf2 & Hti & Hto).
+  (* the stored fields are vsim-related: also the three paired ones of a Conv2d, which are no Python ints on either side *)
+  assert (Hv2 : fields_rel (fun _ => vsim) fs f2).
+  { apply (fields_rel_relookup (frel k) (fun _ => vsim) fs f2 Hf2 Hnd). intros f a b Ha Hb2 Hr.
+    unfold frel in Hr. destruct k; try exact Hr. destruct (mem_str f ["stride"; "padding"; "dilation"]) eqn:Ein; [|exact Hr].
+    assert (Hin : In f ["padding"; "stride"; "dilation"]).
+    { apply mem_str_In in Ein. cbn [In] in Ein |- *. timeout 20 tauto. }
+    rewrite (conv2d_fields _ _ _ _ _ _ Hround Hin) in Ha. rewrite (conv2d_fields _ _ _ _ _ _ E2 Hin) in Hb2.
+    pose proof (fields_rel_assoc _ _ _ f Hsim) as Hxy.
+    assert (Hfm : f <> "metadata") by (destruct Hin as [<-|[<-|[<-|[]]]]; discriminate).
+    pose proof (Hkeeps f Hfm) as Hkp.
+    destruct (assoc f bfs) as [x|] eqn:Ex; [|discriminate Ha]. destruct (assoc f bfs2) as [y|]; [|discriminate Hb2].
+    cbn [option_map] in Ha, Hb2. destruct Horig as (_ & _ & _ & Hpy). specialize (Hpy eq_refl f x Hin Ex).
+    destruct Hkp as (_ & _ & _ & _ & Hpy'). specialize (Hpy' Hpy).
+    rewrite (pair_if_int_not _ Hpy) in Ha. rewrite (pair_if_int_not _ Hpy') in Hb2.
+    inversion Ha; inversion Hb2; subst a b. exact Hxy. }
   assert (Hbe : bfs' = assoc_set "metadata" m' bfs2)
     by (unfold bfs2; rewrite assoc_set_twice, (assoc_set_same _ _ _ Em'); reflexivity).
   rewrite Hbe, post_init_set_meta by (unfold bfs2; rewrite assoc_assoc_set, String.eqb_refl; discriminate).
   rewrite E2. cbn [map_res set_meta].
-  eexists _, _, _. split; [reflexivity|]. split; [|split; assumption].
-  apply (fields_rel_set_meta (frel k) (erel k) fs f2 m m' Hf2 Hnd); [|exact Em|].
-  - intros f x y Hf Hfr. unfold erel. apply String.eqb_neq in Hf. rewrite Hf. exact Hfr.
-  - unfold erel. cbn [String.eqb Ascii.eqb Bool.eqb andb]. exact Hm'.
+  eexists _, _, _. split; [reflexivity|]. split; [|split; [exact Hti|split; [exact Hto|]]].
+  - apply (fields_rel_set_meta (fun _ => vsim) erel fs f2 m m' Hv2 Hnd); [|exact Em|].
+    + intros f x y Hf Hfr. unfold erel. apply String.eqb_neq in Hf. rewrite Hf. exact Hfr.
+    + unfold erel. cbn [String.eqb Ascii.eqb Bool.eqb andb]. exact Hm'.
+  - (* arrays *)
+    intros f dt sh tok i Ha Hsh. rewrite assoc_assoc_set. destruct (String.eqb f "metadata") eqn:Efm.
+    + apply String.eqb_eq in Efm. subst f. rewrite Em in Ha. inversion Ha; subst m.
+      rewrite norm_val_array in Hm' by exact Hsh. inversion Hm'. reflexivity.
+    + apply String.eqb_neq in Efm.
+      assert (Hab : assoc f bfs2 = Some (VArr dt sh tok i)).
+      { unfold bfs2. rewrite assoc_set_other' by exact Efm.
+        pose proof (fields_rel_assoc _ _ _ f Hrel) as Hr.
+        rewrite (bind_args_assoc _ _ _ _ _ Hb (assoc_app_some _ _ _ _ Ha)) in Hr.
+        destruct (assoc f bfs') as [b|]; [|contradiction]. rewrite (brel_array _ _ _ _ _ _ Hsh Hr). reflexivity. }
+      assert (G1 : f <> "input_type") by (intros ->; destruct Htag as (_ & _ & T & _); congruence).
+      assert (G2 : f <> "output_type") by (intros ->; destruct Htag as (_ & _ & _ & T); congruence).
+      destruct (kind_cuba_dec k) as [->|Hnc]; [destruct (String.eqb f "w_in") eqn:Ew|].
+      * apply String.eqb_eq in Ew. subst f.
+        destruct (cuba_w_in _ _ _ _ _ Hround) as (sh0 & Hw0). destruct (cuba_w_in _ _ _ _ _ E2) as (sh2 & Hw2).
+        rewrite Hw0 in Ha. injection Ha as <- <- <- <-. rewrite Hw2.
+        pose proof (fields_rel_assoc _ _ _ "w_in" Hv2) as Hr. rewrite Hw0, Hw2 in Hr.
+        apply vsim_np_shape in Hr. cbn [np_shape] in Hr. inversion Hr. reflexivity.
+      * apply String.eqb_neq in Ew. exact (post_init_arrays _ _ _ _ _ _ _ _ _ _ _ E2 G1 G2 (fun _ => Ew) Hab).
+      * exact (post_init_arrays _ _ _ _ _ _ _ _ _ _ _ E2 G1 G2 (fun E => False_ind _ (Hnc E)) Hab).
 Qed.
 
 (* ================================================================================================ *)
@@ -670,7 +878,8 @@ Definition gty_rel (g g' : option (list (string * ty))) : Prop :=
 Fixpoint rt_rel (a b : node) {struct a} : Prop :=
   match a, b with
   | Leaf k fs ti to, Leaf k' fs' ti' to' =>
-      k = k' /\ fields_rel (erel k) fs fs' /\ ty_rel (loose_in k) ti ti' /\ ty_rel (loose_out k) to to'
+      k = k' /\ fields_rel erel fs fs' /\ ty_rel (loose_in k) ti ti' /\ ty_rel (loose_out k) to to' /\
+      arrays_same fs fs'
   | Graph ch es gi go m, Graph ch' es' gi' go' m' =>
       (fix all (l l' : list (string * node)) {struct l} : Prop :=
          match l, l' with
@@ -706,7 +915,7 @@ Lemma rt_rel_io a b : rt_rel a b ->
   ty_norm (node_tin a) = ty_norm (node_tin b) /\ ty_norm (node_tout a) = ty_norm (node_tout b).
 Proof.
   destruct a as [k fs ti to|ch es gi go m], b as [k' fs' ti' to'|ch' es' gi' go' m']; try (intros []; fail).
-  - cbn [rt_rel]. intros (<- & _ & Hi & Ho). cbn [node_tin node_tout is_input is_output].
+  - cbn [rt_rel]. intros (<- & _ & Hi & Ho & _). cbn [node_tin node_tout is_input is_output].
     repeat split; try reflexivity; eapply ty_rel_norm; eassumption.
   - intros _. repeat split.
 Qed.
@@ -816,7 +1025,7 @@ Theorem built_round_trip : forall n, built n -> rt_dom n ->
 Proof.
   intros n Hb. induction Hb as [k args n Hk Hc|ch es m Hnd Hbs IH] using built_ind2; intros Hdom d' Hn fuel Hfuel.
   - destruct (construct_leaf _ _ _ Hc) as (fs & ti & to & ->). cbn [rt_dom] in Hdom.
-    destruct (leaf_round_trip k args fs ti to d' fuel Hk Hc Hdom Hn) as (fs' & ti' & to' & Hd & Hf & Hi & Ho).
+    destruct (leaf_round_trip k args fs ti to d' fuel Hk Hc Hdom Hn) as (fs' & ti' & to' & Hd & Hf & Hi & Ho & Har).
     exists (Leaf k fs' ti' to'). split; [exact Hd|]. cbn [canon rt_rel]. repeat split; assumption.
   - unfold mk_graph in *. apply rt_dom_graph in Hdom.
     cbn [to_dict] in Hn. fold (child_dicts ch) in Hn.
@@ -854,3 +1063,276 @@ Proof.
         fold (go_children (dict2node fuel)). rewrite Hgo. cbn [bind]. rewrite Hev. cbn [bind]. reflexivity.
       * unfold mk_graph. apply rt_rel_graph. repeat split; assumption.
 Qed.
+
+(* ================================================================================================ *)
+(* (11) THE FILE ROUND-TRIP THEOREM                                                                 *)
+(* ================================================================================================ *)
+(* g' (read back) is equivalent to g (original): see the header and rt_rel *)
+Definition equiv (g' g : node) : Prop := rt_rel g g'.
+
+(* D1, D2 at every leaf (rt_dom) and D3 (DictProofs.single_typed) *)
+Definition rt_domain (g : node) : Prop := rt_dom g /\ single_typed g.
+
+(* without D3: against the canonical form of g (type dictionaries of Input / Output / Flatten restricted to the serialised
+   entry, graph-level types recomputed: DictProofs.canon) *)
+Theorem file_round_trip_canon : forall g t, built g -> rt_dom g -> write g = Ok t ->
+  exists g', read t = Ok g' /\ equiv g' (canon g).
+Proof.
+  intros g t Hb Hd Hw. destruct (read_write_refines g t Hw) as (d' & Hn & Hr & _).
+  destruct (built_round_trip g Hb Hd d' Hn (pval_depth (VDict d')) (le_n _)) as (g' & Hg' & Hrel).
+  exists g'. split; [rewrite Hr; exact Hg'|exact Hrel].
+Qed.
+
+(* THE THEOREM (c01_full_statement) *)
+Theorem file_round_trip : forall g t, built g -> rt_domain g -> write g = Ok t ->
+  exists g', read t = Ok g' /\ equiv g' g.
+Proof.
+  intros g t Hb [Hd Hs] Hw. destruct (file_round_trip_canon g t Hb Hd Hw) as (g' & Hr & He).
+  exists g'. split; [exact Hr|]. rewrite (canon_id g (built_mirrors_deep g Hb) Hs) in He. exact He.
+Qed.
+
+(* ---- reading `equiv` ---------------------------------------------------------------------------- *)
+Lemma equiv_leaf k fs ti to k' fs' ti' to' :
+  equiv (Leaf k' fs' ti' to') (Leaf k fs ti to) <->
+  k = k' /\ fields_rel erel fs fs' /\ ty_rel (loose_in k) ti ti' /\ ty_rel (loose_out k) to to' /\ arrays_same fs fs'.
+Proof. reflexivity. Qed.
+
+Lemma equiv_graph ch es gi go m ch' es' gi' go' m' :
+  equiv (Graph ch' es' gi' go' m') (Graph ch es gi go m) <->
+  all2 rt_rel ch ch' /\ es = es' /\ norm_val m = Ok m' /\ gty_rel gi gi' /\ gty_rel go go'.
+Proof. apply rt_rel_graph. Qed.
+
+Lemma equiv_kind g' g : equiv g' g -> node_kind g' = node_kind g.
+Proof.
+  unfold equiv. destruct g as [k fs ti to|ch es gi go m], g' as [k' fs' ti' to'|ch' es' gi' go' m']; try (intros []; fail).
+  - cbn [rt_rel node_kind]. intros (<- & _). reflexivity.
+  - reflexivity.
+Qed.
+
+(* same field names in the same order *)
+Lemma equiv_field_names k fs ti to k' fs' ti' to' :
+  equiv (Leaf k' fs' ti' to') (Leaf k fs ti to) -> map fst fs' = map fst fs.
+Proof.
+  intros H. apply equiv_leaf in H as (_ & Hf & _).
+  induction Hf as [|p q r r' [Hk _] _ IH]; [reflexivity|]. cbn [map]. rewrite IH, Hk. reflexivity.
+Qed.
+
+(* same child names in the same order *)
+Lemma all2_names (R : node -> node -> Prop) l : forall l', all2 R l l' -> map fst l' = map fst l.
+Proof.
+  induction l as [|x r IH]; intros [|y r'] H; cbn [all2] in H; try contradiction; [reflexivity|].
+  destruct H as (Hn & _ & Hr). cbn [map]. rewrite (IH _ Hr), Hn. reflexivity.
+Qed.
+
+Lemma equiv_child_names ch es gi go m ch' es' gi' go' m' :
+  equiv (Graph ch' es' gi' go' m') (Graph ch es gi go m) -> map fst ch' = map fst ch /\ es' = es.
+Proof. intros H. apply equiv_graph in H as (Ha & He & _). split; [apply (all2_names _ _ _ Ha)|symmetry; exact He]. Qed.
+
+(* the metadata tree read back is the normal form of the original one; when the original contains no bool / float /
+   bytes and no empty nested "metadata" entry (rt_ok) this is vsim, as for the other fields *)
+Lemma erel_metadata a b : erel "metadata" a b <-> norm_val a = Ok b.
+Proof. reflexivity. Qed.
+
+Lemma metadata_vsim a b : norm_val a = Ok b -> rt_ok a -> vsim a b.
+Proof. intros H Hok. apply norm_val_vsim_deep; assumption. Qed.
+
+(* every array at any depth of the metadata tree survives identically (SerialProofs.arrays_survive_deep) *)
+Lemma metadata_arrays l l' p dt sh tok i :
+  norm_val (VDict l) = Ok (VDict l') -> reach l p (VArr dt sh tok i) -> sh <> [] -> reach l' p (VArr dt sh tok i).
+Proof.
+  intros H. rewrite norm_val_dict in H. apply bind_ok in H as (l0 & Hl & H). inversion H; subst l0.
+  apply arrays_survive_deep. exact Hl.
+Qed.
+
+(* field by field: what `erel` says about a non-metadata field *)
+Lemma erel_other f a b : f <> "metadata" -> (erel f a b <-> vsim a b).
+Proof. intros Hf. unfold erel. apply String.eqb_neq in Hf. rewrite Hf. reflexivity. Qed.
+
+
+(* ================================================================================================ *)
+(* (12) EXAMPLE: Input -> Conv2d ('same' padding, tuple hyper-parameters) -> Flatten -> CubaLIF     *)
+(*      (scalar w_in, metadata tree) -> Output                                                      *)
+(* ================================================================================================ *)
+Definition ex_meta : pval :=
+  VDict [("author", VStr "x"); ("lr", VFloat 4607182418800017408); ("flag", VBool true);
+         ("info", VDict [("version", VInt 2); ("metadata", VDict []); ("tags", VDict [("a", VStr "b")])])].
+
+Definition a256 (tok : Z) : pval := VArr "float32" [256] tok None.
+
+Definition ex_args : list (string * (kind * list (string * pval))) :=
+  [("input", (KInput, [("input_type", VDict [("input", VTuple [VInt 1; VInt 8; VInt 8])])]));
+   ("conv", (KConv2d, [("input_shape", VTuple [VInt 8; VInt 8]); ("weight", VArr "float32" [4; 1; 3; 3] 11 None);
+                       ("stride", VInt 1); ("padding", VStr "same"); ("dilation", VTuple [VInt 1; VInt 1]);
+                       ("groups", VInt 1); ("bias", VArr "float32" [4] 12 None)]));
+   ("flatten", (KFlatten, [("input_type", VDict [("input", VArr "int64" [3] 13 (Some [4; 8; 8]))]);
+                           ("start_dim", VInt 0); ("end_dim", VInt (-1))]));
+   ("lif", (KCubaLIF, [("tau_syn", a256 21); ("tau_mem", a256 22); ("r", a256 23); ("v_leak", a256 24);
+                       ("v_threshold", a256 25); ("w_in", VFloat 4611686018427387904); ("metadata", ex_meta)]));
+   ("output", (KOutput, [("output_type", VDict [("output", VArr "int64" [1] 14 (Some [256]))])]))].
+
+Definition dummy : node := Leaf KInput [] None None.
+Definition ex_children : list (string * node) :=
+  Eval vm_compute in
+    map (fun p => (fst p, match construct (fst (snd p)) (snd (snd p)) with Ok n => n | Err _ => dummy end)) ex_args.
+Definition ex_edges : list (string * string) :=
+  [("input", "conv"); ("conv", "flatten"); ("flatten", "lif"); ("lif", "output")].
+Definition ex_graph : node := mk_graph ex_children ex_edges (VDict [("name", VStr "demo")]).
+
+
+Lemma built_children (l : list (string * (kind * list (string * pval)))) :
+  forallb (fun p => negb (kind_eqb (fst (snd p)) KGraph) && is_ok (construct (fst (snd p)) (snd (snd p)))) l = true ->
+  Forall (fun p => built (snd p))
+    (map (fun p => (fst p, match construct (fst (snd p)) (snd (snd p)) with Ok n => n | Err _ => dummy end)) l).
+Proof.
+  induction l as [|[name [k args]] r IH]; cbn [forallb map fst snd]; intros H; [constructor|].
+  apply andb_prop in H as [H Hr]. apply andb_prop in H as [Hk Hc]. constructor; [|apply IH; exact Hr].
+  cbn [snd]. destruct (construct k args) as [n|] eqn:E; [|discriminate Hc].
+  apply (built_leaf k args n); [|exact E]. intros ->. discriminate Hk.
+Qed.
+
+Lemma ex_built : built ex_graph.
+Proof.
+  unfold ex_graph. apply built_graph.
+  - apply nodupb_NoDup. vm_compute. reflexivity.
+  - change ex_children with
+      (map (fun p => (fst p, match construct (fst (snd p)) (snd (snd p)) with Ok n => n | Err _ => dummy end)) ex_args).
+    apply built_children. vm_compute. reflexivity.
+Qed.
+
+Ltac dom_leaf :=
+  split;
+  [ intros f v Hin Hf; cbn [In] in Hin;
+    repeat (destruct Hin as [Hin|Hin]; [inversion Hin; subst; try (exfalso; apply Hf; reflexivity); exact I|]);
+    destruct Hin
+  | intros f v Hin Hv; cbn [hp0_names In] in Hin;
+    repeat (destruct Hin as [Hin|Hin]; [subst f; cbn in Hv; inversion Hv; reflexivity|]); destruct Hin ].
+
+Lemma ex_domain : rt_domain ex_graph.
+Proof.
+  split.
+  - unfold ex_graph, mk_graph. apply rt_dom_graph. unfold ex_children.
+    repeat (apply Forall_cons; [cbn [snd rt_dom]; dom_leaf|]). apply Forall_nil.
+  - unfold ex_graph, mk_graph. apply single_typed_graph. unfold ex_children.
+    repeat (apply Forall_cons; [cbn [snd single_typed leaf_single]; try exact I; eexists; reflexivity|]). apply Forall_nil.
+Qed.
+
+Definition ex_file : h5 := Eval vm_compute in match write ex_graph with Ok t => t | Err _ => H5Group [] end.
+Definition ex_read : node := Eval vm_compute in match read ex_file with Ok g => g | Err _ => dummy end.
+
+Lemma ex_write : write ex_graph = Ok ex_file.
+Proof. vm_compute. reflexivity. Qed.
+Lemma ex_read_ok : read ex_file = Ok ex_read.
+Proof. vm_compute. reflexivity. Qed.
+
+(* the conclusion of the theorem on the example *)
+Example ex_round_trip : exists g', read ex_file = Ok g' /\ equiv g' ex_graph.
+Proof. exact (file_round_trip ex_graph ex_file ex_built ex_domain ex_write). Qed.
+
+Corollary ex_equiv : equiv ex_read ex_graph.
+Proof.
+  destruct ex_round_trip as (g' & Hr & He). rewrite ex_read_ok in Hr. inversion Hr. subst g'. exact He.
+Qed.
+
+(* the same fact checked directly against the definition of `equiv`, without the theorem *)
+Ltac vsolve :=
+  first
+  [ apply vs_refl
+  | apply vs_int_np
+  | match goal with |- vsim (VTuple ?l) (VArr ?dt _ ?tok (Some ?zs)) => exact (vs_seq_arr true l zs dt tok eq_refl) end
+  | vm_compute; reflexivity ].
+Ltac fsolve :=
+  repeat (apply Forall2_cons;
+          [split; [reflexivity|]; unfold erel;
+           cbn [String.eqb Ascii.eqb Bool.eqb andb mem_str orb fst snd]; vsolve|]);
+  apply Forall2_nil.
+
+Ltac asolve :=
+  intros f dt sh tok i Ha Hsh; revert Ha; cbn [assoc];
+  repeat match goal with |- context [String.eqb ?x ?s] => destruct (String.eqb x s) end;
+  intros Ha; first [exact Ha | discriminate Ha | exfalso; apply Hsh; inversion Ha; reflexivity].
+
+Example ex_equiv_direct : equiv ex_read ex_graph.
+Proof.
+  unfold equiv, ex_read, ex_graph, mk_graph, ex_children. apply rt_rel_graph.
+  split; [|split; [reflexivity|split; [vm_compute; reflexivity|split; vm_compute; repeat constructor]]].
+  cbn [all2 fst snd rt_rel]. repeat split; try reflexivity; try fsolve; asolve.
+Qed.
+
+(* ================================================================================================ *)
+(* (13) what the domain excludes: counterexamples                                                   *)
+(* ================================================================================================ *)
+(* (D1, bool) a Python bool hyper-parameter that the constructor reads as an integer comes back as numpy.bool_, which
+   is not read as an integer: READING THE FILE FAILS *)
+Definition flat_bool : list (string * pval) :=
+  [("input_type", VDict [("input", VTuple [VInt 2; VInt 3])]); ("start_dim", VBool false); ("end_dim", VInt (-1))].
+Example bool_needed :
+  exists n t, construct KFlatten flat_bool = Ok n /\ write n = Ok t /\ read t = Err TypeError.
+Proof. eexists _, _. split; [vm_compute; reflexivity|]. split; [vm_compute; reflexivity|]. vm_compute. reflexivity. Qed.
+
+Definition pool_args (x : pval) : list (string * pval) :=
+  [("kernel_size", x); ("stride", VInt 2); ("padding", VInt 0)].
+
+Ltac cex_first_field Hv :=
+  eexists _, _, _; split; [vm_compute; reflexivity|]; split; [vm_compute; reflexivity|]; split; [vm_compute; reflexivity|];
+  intros H; unfold equiv in H; cbn [rt_rel] in H; destruct H as (_ & Hf & _);
+  inversion Hf as [|p q r r' [_ Hv] _]; subst; unfold erel in Hv;
+  cbn [fst snd String.eqb Ascii.eqb Bool.eqb andb] in Hv.
+
+(* (D1, nested empty metadata) the writer drops an empty dictionary called "metadata" at ANY depth: inside a
+   dictionary-valued hyper-parameter the entry is lost *)
+Example nested_empty_metadata_needed :
+  exists n t n', construct KAvgPool2d (pool_args (VDict [("metadata", VDict [])])) = Ok n /\ write n = Ok t /\
+                 read t = Ok n' /\ ~ equiv n' n.
+Proof. cex_first_field Hv. apply (vsim_pshape_view "x") in Hv. discriminate Hv. Qed.
+
+(* (D1, bytes) bytes come back as str *)
+Example bytes_needed :
+  exists n t n', construct KAvgPool2d (pool_args (VBytes "ab")) = Ok n /\ write n = Ok t /\
+                 read t = Ok n' /\ ~ equiv n' n.
+Proof. cex_first_field Hv. apply vsim_str_view in Hv. discriminate Hv. Qed.
+
+(* (D1, float) a Python float comes back as a numpy float64 scalar whose content the model does not record; vsim keeps
+   floats apart, so `equiv` cannot hold — this is a limit of the relation, not a defect of the round trip *)
+Example float_excluded :
+  exists n t n', construct KAvgPool2d (pool_args (VFloat 7)) = Ok n /\ write n = Ok t /\
+                 read t = Ok n' /\ ~ equiv n' n.
+Proof. cex_first_field Hv. apply vsim_is_float in Hv. discriminate Hv. Qed.
+
+(* (D3) extra entries of the type dictionary of an Input node are not serialised (DictProofs.extra_keys_lost) *)
+Example single_needed :
+  exists n t n', construct KInput extra_key_input = Ok n /\ write n = Ok t /\ read t = Ok n' /\ ~ equiv n' n.
+Proof.
+  eexists _, _, _. split; [vm_compute; reflexivity|]. split; [vm_compute; reflexivity|]. split; [vm_compute; reflexivity|].
+  intros H. unfold equiv in H. cbn [rt_rel] in H. destruct H as (_ & _ & Hti & _). cbn in Hti. discriminate Hti.
+Qed.
+
+(* (D2 is sufficient, not necessary) a Conv1d with padding = "same" never reads its stride; with a 0-d array there the
+   node is outside rt_domain (SimProofs.post_init_sim needs S2), yet its round trip is fine *)
+Definition conv1d_0d : list (string * pval) :=
+  [("input_shape", VInt 8); ("weight", VArr "float32" [4; 1; 3] 11 None);
+   ("stride", VArr "int64" [] 5 (Some [1])); ("padding", VStr "same"); ("dilation", VInt 1);
+   ("groups", VInt 1); ("bias", VArr "float32" [4] 12 None)].
+Example hp0_not_necessary :
+  exists n t n', construct KConv1d conv1d_0d = Ok n /\ ~ rt_domain n /\ write n = Ok t /\ read t = Ok n' /\ equiv n' n.
+Proof.
+  eexists _, _, _. split; [vm_compute; reflexivity|]. split; [|split; [vm_compute; reflexivity|split; [vm_compute; reflexivity|]]].
+  - intros [[_ H] _]. specialize (H "stride" _ (or_intror (or_introl eq_refl)) eq_refl). discriminate H.
+  - apply equiv_leaf. split; [reflexivity|]. split; [|split; [reflexivity|split; [reflexivity|asolve]]].
+    repeat (apply Forall2_cons;
+            [split; [reflexivity|]; unfold erel; cbn [String.eqb Ascii.eqb Bool.eqb andb mem_str orb fst snd];
+             first [apply vs_arr0_np | vsolve]|]).
+    apply Forall2_nil.
+Qed.
+
+Print Assumptions leaf_round_trip.
+Print Assumptions built_round_trip.
+Print Assumptions file_round_trip_canon.
+Print Assumptions file_round_trip.
+Print Assumptions ex_round_trip.
+Print Assumptions ex_equiv_direct.
+Print Assumptions bool_needed.
+Print Assumptions nested_empty_metadata_needed.
+Print Assumptions bytes_needed.
+Print Assumptions float_excluded.
+Print Assumptions single_needed.
+Print Assumptions hp0_not_necessary.
